@@ -59,3 +59,43 @@ func VfC15_Hysteresis() {
 		nd.Assert(usable == now, "the usable set follows the health flag")
 	}
 }
+
+type vfCountChecker struct{ n int }
+
+func (c *vfCountChecker) Check(addr string, timeout time.Duration) error { c.n++; return nil }
+
+// VfC09_MonitorRound: one health-check round over a host set — of a few hosts, of exactly the
+// worker limit, and of one host more than the worker limit — checks every host once and ends
+// (Monitor.Stop and with it the service's Stop wait for the round).
+func VfC09_MonitorRound() {
+	sizes := []int{0, 1, 3, MaximumConcurrency, MaximumConcurrency + 1}
+	n := sizes[nd.Concrete(nd.Choice("hosts", len(sizes)))]
+	hs := make([]*hostpkg.Host, n)
+	for i := range hs {
+		hs[i] = hostpkg.New("10.0." + itoa(i/250) + "." + itoa(i%250) + ":80")
+	}
+	set := hostpkg.NewSet(hs...)
+	ck := &vfCountChecker{}
+	m := &Monitor{logger: log.New("vf"), config: &hcpb.HealthCheck{RiseThreshold: 1, FallThreshold: 1}, checker: ck, hostSet: set}
+	done := false
+	nd.PanicLabel("monitor-round")
+	go func() { m.checkHosts(); done = true }()
+	nd.Quiesce()
+	nd.Assert(done, "a health-check round ends, whatever the number of hosts (Stop waits for it)")
+	nd.Assert(ck.n == n, "every host is checked once per round")
+	if n > MaximumConcurrency {
+		nd.Cover("more-hosts-than-workers")
+	}
+}
+
+func itoa(i int) string {
+	if i == 0 {
+		return "0"
+	}
+	s := ""
+	for i > 0 {
+		s = string(rune('0'+i%10)) + s
+		i /= 10
+	}
+	return s
+}
